@@ -62,7 +62,7 @@ example : nonnegW cE = true ∧ dictOK cE = true := by decide
 example : ((Gen.new cE).bind fun g => runActs cE 1000 [.take 10] g []).map (fun r => r.2.map fun p => pcost cE p cG.start) =
     some [1, 4, 5, 5, 6] := by decide +kernel
 
-/-! ### prefix completeness — NOT proved; false when a rule with arguments costs 0 (finding C03-F5 = C02-F4)
+/-! ### prefix completeness — NOT proved; false when a rule with arguments costs 0 (finding C03-F8 = C02-F6)
 
 Full statement (not proved): `posArgCosts E → … → out = l1 ++ q :: l2 → gen E.G p start → pcost p < pcost q → p ∈ l1`.
 It is compared on every generated case (finite grammars and prefixes on recursive grammars) against the
@@ -79,7 +79,7 @@ def pE : Env Nat := { G := pG, W := pW, progs0 := 2 }
 
 /-- the machine yields `a0` (cost 5) although `(g (h k))` (cost 1) was never yielded: the combination `g[0]` is
     popped before `(h k)` is in the bank of its argument (both have cost 1 because `g` and `h` cost 0) -/
-theorem finding_C03_F5 :
+theorem finding_C03_F8 :
     ((Gen.new pE).bind fun g => take pE 1000 1 g []).map (fun r => r.2.1) = some [.node (Sym.prim "a0" .unknown) []] ∧
     gen pG fProg pG.start = true ∧ pcost pE fProg pG.start = 1 ∧ pcost pE (.node (Sym.prim "a0" .unknown) []) pG.start = 5 ∧
     posArgCosts pE = false := by
